@@ -454,13 +454,27 @@ class HintSane(object, metaclass=_HintSaneMetaclass):
         self.typearg_to_hint = typearg_to_hint
 
         # Hash identifying this object, precomputed for efficiency.
-        self._hash = hash((
-            hint,
-            hint_recursable_to_depth,
-            is_check_expr_cacheable,
-            is_hint_parent_pep484585_subclass,
-            typearg_to_hint,
-        ))
+        try:
+            self._hash = hash((
+                hint,
+                hint_recursable_to_depth,
+                is_check_expr_cacheable,
+                is_hint_parent_pep484585_subclass,
+                typearg_to_hint,
+            ))
+        # If this hint is unhashable (e.g., "Annotated[int, []]", "list[[]]"),
+        # identify this hint by its object identity instead. Unhashable hints
+        # are already unmemoized by the metaclass above; raising a non-human-
+        # readable "TypeError" here would only obscure the human-readable
+        # exception subsequently raised for unsupported hints.
+        except TypeError:
+            self._hash = hash((
+                id(hint),
+                hint_recursable_to_depth,
+                is_check_expr_cacheable,
+                is_hint_parent_pep484585_subclass,
+                typearg_to_hint,
+            ))
 
     # ..................{ DUNDERS                            }..................
     def __hash__(self) -> int:
